@@ -14,7 +14,7 @@ usage: c10_geoedits.py <tier> <seed>
 Columns are addressed by their rank in a canonical geometric order (vertex mean x, y), because the names
 the library hands out after a refinement depend on set iteration order (object addresses).
 """
-import sys, os, json, time, random, itertools, signal, tempfile, shutil, io, contextlib, copy, traceback
+import sys, os, json, time, random, itertools, signal, tempfile, shutil, io, contextlib, copy, traceback, zlib
 sys.path.insert(0, os.environ.get('PYTOUGH_REPO', '/repo'))
 import warnings
 warnings.filterwarnings('ignore')
@@ -370,6 +370,7 @@ def build_base(spec):
             _, name, maxcols, fseed = spec
             g = mulgrid(os.path.join(REPO, 'tests', 'mulgrid', name))
             g.check(fix=True, silent=True)
+            g.identify_neighbours()     # check(fix=True) does not do this itself: see the 'fileraw' + check-fix case
             g.setup_block_name_index(); g.setup_block_connection_name_index()
             if g.num_columns > maxcols:
                 r = random.Random(fseed)
@@ -385,6 +386,8 @@ def build_base(spec):
                             inreg.add(j); region.append(j); frontier.append(j)
                 g.reduce([byid[i] for i in region])
             return g
+        if kind == 'fileraw':
+            return mulgrid(os.path.join(REPO, 'tests', 'mulgrid', spec[1]))
         if kind == 'refined':
             g = build_base(spec[1])
             for op in spec[2]: apply_op(g, op)
@@ -519,6 +522,8 @@ def apply_op(geo, op):
         return None, ('g.add_node(node(%r, np.array(%r))); g.add_column(column(%r, [g.node[%r], g.node[%r], g.node[%r]], surface=%r)); '
                       '[g.add_connection(c) for c in g.missing_connections]; g.identify_neighbours(); g.set_column_num_layers(g.column[%r]); '
                       'g.setup_block_name_index(); g.setup_block_connection_name_index()') % (nn, [float(x) for x in apex], cn, b.name, a.name, nn, c.surface, cn)
+    if k == 'check-fix':
+        return geo.check(fix=True, silent=True), 'g.check(fix=True, silent=True)'
     if k == 'add_node':
         nn = geo.new_node_name()[0]
         b = geo.bounds
@@ -543,7 +548,7 @@ def apply_op(geo, op):
 # ops after which the mesh must be valid (no missing / extra connections, no orphan nodes) if it was before
 PROMISES_VALID = set(['split', 'rename', 'rename1', 'rename-perm', 'refine', 'refine-all', 'decompose', 'decompose-all', 'reduce', 'snap',
                       'snap-nearest', 'refine_layers', 'translate', 'rotate', 'copy_layers', 'add_well', 'delete_well', 'rename_layer',
-                      'grow', 'fit_surface', 'delete_node'])
+                      'grow', 'fit_surface', 'delete_node', 'check-fix'])
 
 
 def subset_family(n, rnd, fam):
@@ -584,13 +589,14 @@ def ops_for(geo, rnd, fam):
     for i in order:
         if len(cols[i].node) == 4: ops += [['split', i, j] for j in range(4)]
         else: ops.append(['split', i, 0])
+    lite = fam.get('lite', False)
     for s in subsets:
         ops.append(['rename', s])
-        for mode in (False, 'x', 'y', True): ops.append(['refine', mode, s, []])
+        for mode in ((False, ['x', 'y', True][(len(s) + s[0]) % 3]) if lite else (False, 'x', 'y', True)): ops.append(['refine', mode, s, []])
         e = edge_columns(geo, cols, s)
         if e:
             ops.append(['refine', [False, 'x', 'y', True][(len(s) + s[0]) % 4], s, e])
-            if len(e) > 1: ops.append(['refine', [True, 'y', False, 'x'][(len(s) + s[0]) % 4], s, e[::2]])
+            if len(e) > 1 and not lite: ops.append(['refine', [True, 'y', False, 'x'][(len(s) + s[0]) % 4], s, e[::2]])
         ops.append(['decompose', s])
         ops.append(['reduce', s])
         if len(s) < n: ops.append(['delete', s])
@@ -598,10 +604,12 @@ def ops_for(geo, rnd, fam):
     ops.append(['rename1', [0]])
     if n >= 2: ops.append(['rename-perm', [0, 1]])
     if n >= 3: ops.append(['rename-perm', [0, n // 2, n - 1]])
-    for mode in (False, 'x', 'y', True): ops.append(['refine-all', mode])
+    for mode in ((False,) if lite else (False, 'x', 'y', True)): ops.append(['refine-all', mode])
     ops.append(['decompose-all'])
-    ops.append(['snap', 0.6, []]); ops.append(['snap', 5.0, []]); ops.append(['snap', 0.0, []])
-    ops.append(['snap-nearest', []]); ops.append(['snap-nearest', subsets[len(subsets) // 2]])
+    ops.append(['snap', 5.0, []])
+    if not lite: ops.append(['snap', 0.6, []]); ops.append(['snap', 0.0, []])
+    ops.append(['snap-nearest', []])
+    if not lite: ops.append(['snap-nearest', subsets[len(subsets) // 2]])
     nl = len(geo.layerlist)
     if nl > 1:
         if fam['layers'] == 'all' and nl <= 5:
@@ -615,7 +623,7 @@ def ops_for(geo, rnd, fam):
         ops.append(['delete_layer', nl - 1]); ops.append(['add_layer']); ops.append(['rename_layer', 1])
     ops.append(['translate', [1.5, -2.25, 0.75], False]); ops.append(['translate', [0., 0., -0.5], True])
     ops.append(['rotate', 30., None, False]); ops.append(['rotate', 90., [0., 0.], True])
-    for v in range(len(COPY_LAYER_VARIANTS)): ops.append(['copy_layers', v])
+    for v in ([rnd.randrange(len(COPY_LAYER_VARIANTS))] if lite else range(len(COPY_LAYER_VARIANTS))): ops.append(['copy_layers', v])
     ops.append(['add_well'])
     if geo.welllist: ops.append(['delete_well', 0])
     pairs = []
@@ -628,7 +636,7 @@ def ops_for(geo, rnd, fam):
     nb = len(boundary_edges(geo))
     for i in sorted(set([0, nb // 3, (2 * nb) // 3]))[:fam['grow']]:
         if i < nb: ops.append(['grow', i])
-    ops.append(['add_node'])
+    ops.append(['add_node']); ops.append(['check-fix'])
     used = set(id(x) for c in geo.columnlist for x in c.node)
     if any(id(x) not in used for x in geo.nodelist): ops.append(['delete_node'])
     if fam['fit']:
@@ -731,7 +739,7 @@ def contract_roundtrip(geo, tmpdir):
     if set(frozenset(c.name for c in k.column) for k in g2.connectionlist) != set(frozenset(c.name for c in k.column) for k in geo.connectionlist): out.append('connections differ after re-read')
     if [l.name for l in g2.layerlist] != [l.name for l in geo.layerlist]: out.append('layer names differ after re-read')
     exact = all(abs(round(x, 2) - x) < 1e-9 for x in [l.bottom for l in geo.layerlist] + [c.surface for c in geo.columnlist])
-    if exact and not out and list(g2.block_name_list) != list(geo.block_name_list): out.append('block names differ after re-read')
+    if exact and not out and list(g2.block_name_list) != list(fresh_name_lists(geo)[0]): out.append('block names differ after re-read')
     return (not out), out
 
 
@@ -760,6 +768,7 @@ class Recorder(object):
 
 def base_tag(spec):
     if spec[0] == 'rect': return 'rect%dx%d' % (len(spec[1]), len(spec[2]))
+    if spec[0] == 'fileraw': return spec[1].replace('.dat', '') + '-raw'
     if spec[0] == 'file': return '%s[%d]' % (spec[1].replace('.dat', ''), spec[2])
     if spec[0] == 'refined': return base_tag(spec[1]) + '+' + '+'.join(opstr(o) for o in spec[2])
     return spec[0]
@@ -767,7 +776,10 @@ def base_tag(spec):
 
 def opstr(op):
     def s(x):
-        if isinstance(x, list): return '[' + ','.join(s(y) for y in x) + ']'
+        if isinstance(x, list):
+            if len(x) > 10:   # long selections: head, size and a checksum keep the key short but specific
+                return '[' + ','.join(s(y) for y in x[:4]) + ',..#%d:%08x]' % (len(x), zlib.crc32(json.dumps(x).encode()))
+            return '[' + ','.join(s(y) for y in x) + ']'
         if isinstance(x, float): return '%g' % x
         return str(x)
     return op[0] + '(' + ','.join(s(x) for x in op[1:]) + ')'
@@ -780,9 +792,20 @@ def replay(base, hist):
     return g
 
 
+def refine_supported(geo, op):
+    """Documented precondition of refine(): the columns of the region and of the transition region are 3- or 4-sided."""
+    cols = canon(geo)
+    sel = list(range(len(cols))) if op[0] == 'refine-all' else list(op[2]) + list(op[3])
+    adj = adjacency(geo)
+    ids = set(id(cols[i]) for i in sel)
+    for i in sel: ids |= adj[id(cols[i])]
+    return all(len(c.node) in (3, 4) for c in cols if id(c) in ids)
+
+
 def step(geo, op, before, base, hist, calls, rec):
     """Applies op to geo (in place), evaluates the contracts. Returns (after_info, continue?)."""
     k = op[0]
+    supported = refine_supported(geo, op) if k in ('refine', 'refine-all') else True
     ncol = len(geo.columnlist)
     names_before = set(c.name for c in geo.columnlist)
     sig = signature(geo) if k == 'split' else None
@@ -793,11 +816,16 @@ def step(geo, op, before, base, hist, calls, rec):
         rec.count('exception')
         rec.fail('timeout', k, base, h, calls + [opstr(op)], 'no return within %d s' % OP_TIMEOUT)
         return None, False
+    except mulgrids.NamingConventionError:
+        rec.count('capacity-error')      # the documented, explicit answer to an exhausted name space (property C17): not a failure
+        return None, False
     except Exception as e:
         rec.count('exception')
         tb = traceback.extract_tb(sys.exc_info()[2])
         where = ['%s:%d %s' % (os.path.basename(f.filename), f.lineno, f.name) for f in tb if 'c10_geoedits' not in f.filename][-2:]
-        rec.fail('exception', k, base, h, calls + [opstr(op)], 'raises %s: %s at %s' % (type(e).__name__, e, where))
+        site = [w.split(' ')[0] for w in where][-1:] or ['?']
+        rec.fail('exception' if supported else 'unsupported-exception', '%s[%s@%s]' % (k, type(e).__name__, site[0]), base, h, calls + [opstr(op)],
+                 'raises %s: %s at %s%s' % (type(e).__name__, e, where, '' if supported else ' (selection or transition region has a column with more than 4 sides, which refine() documents as unsupported)'))
         return None, False
     calls = calls + [call]
     after = state_info(geo)
@@ -814,11 +842,16 @@ def step(geo, op, before, base, hist, calls, rec):
         rec.count('check')
         ok3, why = contract_check(before, after)
         if not ok3 and ok2: rec.fail('check-false', k, base, h, calls, 'check(fix=False) was True before the edit and is %r after' % (why,))
+    if k == 'check-fix':
+        left = dict((w, x[:4]) for w, x in after['mesh'].items() if x and w != 'nonmanifold')
+        if left: rec.fail('mesh-left', k, base, h, calls, 'check(fix=True) leaves %r' % (left,))
     rec.count('specific')
     ok4, out = contract_specific(op, ret, sig, geo, ncol, names_before)
     if not ok4: rec.fail('result', k, base, h, calls, '; '.join(out))
     blocking = [c for c, _ in after['wf'] if c not in NONBLOCKING]
-    return (after, calls), (not blocking)
+    finite = all(c.surface is None or np.isfinite(c.surface) for c in geo.columnlist)
+    if not finite: rec.count('state-with-non-finite-surface(not extended)')
+    return (after, calls), (not blocking and finite)
 
 
 def explore(geo, before, base, hist, calls, depth, fams, rnd, rec, deadline, tmpdir):
@@ -843,7 +876,7 @@ def explore(geo, before, base, hist, calls, depth, fams, rnd, rec, deadline, tmp
             rec.count('roundtrip')
             ok, out = contract_roundtrip(g, tmpdir)
             if not ok: rec.fail('roundtrip', op[0], base, hist + [op], calls2, '; '.join(out))
-        if len(hist) + 1 < depth and len(g.columnlist) > 0 and is_connected(g):
+        if len(hist) + 1 < depth and len(g.columnlist) > 0 and is_connected(g) and rnd.random() < fams[len(hist) + 1].get('expand', 1.0):
             explore(g, after, base, hist + [op], calls2, depth, fams, rnd, rec, deadline, tmpdir)
 
 
@@ -869,7 +902,7 @@ def task_exhaustive(args):
             rec.count('roundtrip')
             ok, out = contract_roundtrip(g, tmpdir)
             if not ok: rec.fail('roundtrip', op[0], base, [op], calls, '; '.join(out))
-        if depth > 1 and len(g.columnlist) > 0 and is_connected(g):
+        if depth > 1 and len(g.columnlist) > 0 and is_connected(g) and rnd.random() < fams[1].get('expand', 1.0):
             explore(g, after, base, [op], calls, depth, fams, rnd, rec, deadline, tmpdir)
     return rec
 
@@ -1009,7 +1042,7 @@ def main():
     tier = sys.argv[1] if len(sys.argv) > 1 else 'quick'
     seed = int(sys.argv[2]) if len(sys.argv) > 2 else 0
     t0 = time.time()
-    budget = 45 if tier == 'quick' else 780
+    budget = float(os.environ.get('VERIF_BUDGET_S', 45 if tier == 'quick' else 780))   # wall-clock guard; sub-trees not reached are counted
     deadline = t0 + budget
     tmpdir = tempfile.mkdtemp(prefix='pytough-', dir='/var/tmp')
     rnd = random.Random(seed)
@@ -1017,20 +1050,22 @@ def main():
         if tier == 'quick':
             depth = 2
             fams = [dict(exh=6, singles=0, compl=0, random=0, maxsplit=6, cons=7, grow=3, fit=True, layers='all', roundtrip=0.0),
-                    dict(exh=3, singles=3, compl=1, random=2, maxsplit=3, cons=2, grow=1, fit=False, layers='few', roundtrip=0.02)]
-            nrandom, rlen, maxcols = 28, 25, 320
+                    dict(exh=2, singles=2, compl=1, random=1, maxsplit=2, cons=2, grow=1, fit=False, layers='few', roundtrip=0.02, lite=True)]
+            nrandom, rlen, maxcols = 24, 25, 320
         else:
             depth = 3
             fams = [dict(exh=6, singles=0, compl=0, random=0, maxsplit=6, cons=7, grow=3, fit=True, layers='all', roundtrip=0.0),
-                    dict(exh=5, singles=6, compl=3, random=6, maxsplit=6, cons=4, grow=2, fit=True, layers='all', roundtrip=0.02),
-                    dict(exh=0, singles=1, compl=0, random=1, maxsplit=1, cons=1, grow=1, fit=False, layers='few', roundtrip=0.01)]
-            nrandom, rlen, maxcols = 420, 25, 320
+                    dict(exh=4, singles=5, compl=2, random=4, maxsplit=4, cons=3, grow=2, fit=True, layers='few', roundtrip=0.02),
+                    dict(exh=0, singles=1, compl=0, random=1, maxsplit=1, cons=1, grow=1, fit=False, layers='few', roundtrip=0.01, lite=True, expand=0.15)]
+            nrandom, rlen, maxcols = 300, 25, 320
         tasks = []
         for base in (RECT22, RECT32, MIXED5):
             g = build_base(base)
             first = ops_for(g, random.Random(seed), fams[0])
             for i, op in enumerate(first):
                 tasks.append(('x', (base, [op], depth, fams, seed * 1000003 + len(tasks), deadline, tmpdir)))
+        for name in ('g3.dat', 'g7.dat', 'g1.dat'):
+            tasks.append(('x', (['fileraw', name], [['check-fix']], 1, fams, seed, deadline, tmpdir)))
         files = [('g7.dat', 300), ('g1.dat', 300), ('g5.dat', 300), ('g6.dat', 300), ('g3.dat', 300), ('g2.dat', 250), ('g4.dat', 250)]
         for i in range(nrandom):
             r = random.Random(seed * 7919 + i)
@@ -1049,13 +1084,15 @@ def main():
                 base = ['refined', MIXED5, [['decompose-all'], ['refine', False, [0], []]]]
             tasks.append(('r', (base, rlen, seed * 104729 + i, maxcols, deadline, tmpdir)))
         # longest first: random histories on big geometries, then exhaustive sub-trees
-        order = [i for i, t in enumerate(tasks) if t[0] == 'r'] + [i for i, t in enumerate(tasks) if t[0] == 'x']
+        order = ([i for i, t in enumerate(tasks) if t[1][0][0] == 'fileraw'] + [i for i, t in enumerate(tasks) if t[0] == 'r'] +
+                 [i for i, t in enumerate(tasks) if t[0] == 'x' and t[1][0][0] != 'fileraw'])
         results = {}
         with mp.Pool(min(16, os.cpu_count() or 4)) as pool:
             for i, rec in pool.imap_unordered(run_task, [(i, tasks[i]) for i in order], chunksize=1):
                 results[i] = rec
         counts, classes, failures, samples = {}, {}, [], []
         histories = skipped = truncated = 0
+        cpu = sum(getattr(r, 'cpu', 0.0) for r in results.values())
         for i in sorted(results):
             rec = results[i]
             for k, v in rec.counts.items(): counts[k] = counts.get(k, 0) + v
@@ -1075,7 +1112,7 @@ def main():
         kept.sort(key=lambda f: f['key'])
         samples.append({'contract_evaluations': counts, 'histories': histories,
                         'histories_ending_in_an_ill_formed_state_not_extended': skipped,
-                        'subtrees_truncated_by_time_budget': truncated,
+                        'subtrees_truncated_by_time_budget': truncated, 'worker_cpu_seconds': round(cpu, 1),
                         'failure_classes(category op: count)': dict(sorted(classes.items()))})
         out = {'evaluations': sum(counts.values()), 'distinct': histories, 'failures': kept, 'nfailures': sum(classes.values()),
                'samples': samples, 'seconds': time.time() - t0}
@@ -1086,11 +1123,13 @@ def main():
 
 def run_task(arg):
     i, (kind, args) = arg
+    c0 = time.process_time()
     try:
         rec = task_exhaustive(args) if kind == 'x' else task_random(args)
     except Exception as e:
         rec = Recorder()
         rec.fail('harness-error', kind, args[0], [], [], 'harness task crashed: %s: %s\n%s' % (type(e).__name__, e, traceback.format_exc()[-600:]))
+    rec.cpu = time.process_time() - c0
     return i, rec
 
 
